@@ -302,15 +302,9 @@ fn exec_session(sess: &mut Session, toks: &[&str]) -> Option<String> {
                 Err(e) => format!("err {}", kind_name(&e)),
             }
         }
-        "stream_read" => match pkg.read_stream(&str_of_hex(toks[1]).unwrap()) {
-            Ok(mut r) => {
-                let mut data = vec![];
-                match r.read_to_end(&mut data) {
-                    Ok(_) => hex_of_bytes(&data),
-                    Err(e) => format!("err {}", kind_name(&e)),
-                }
-            }
-            Err(e) => format!("err {}", kind_name(&e)),
+        "stream_read" => match read_stream_checked(pkg, &str_of_hex(toks[1]).unwrap()) {
+            Ok(data) => hex_of_bytes(&data),
+            Err(e) => e,
         },
         "stream_remove" => res_unit(pkg.remove_stream(&str_of_hex(toks[1]).unwrap())),
         "has_stream" => (pkg.has_stream(&str_of_hex(toks[1]).unwrap()) as i32).to_string(),
